@@ -19,6 +19,7 @@ Mirrors (hand-written, tied to the code by `harness/c17.py`):
 * `from_sufficient_statistics`, `AbstractMessage.project` for every family
                                                                      → `invertSuffX`, `fromSuffX`, `weightedStatsT`, `projectWX`, `projectX`, `M.projectX`
 * `NormalMessage / NaturalNormal / GammaMessage .from_mode` (scalar variance) → `fromMode`
+* `TransformedMessage.__init__` (flattening of a transformed base message) → `M.wrap`
 
 `expectedStats` is the closed form of `E[t(x)]` under a member (digamma expressions for Gamma / Beta):
 the quantity the moment-matching clause of the property speaks about; the driver evaluates it on the
@@ -243,6 +244,13 @@ def fromMode (fn : Fn K) (sp : Sp K) (fam : Family) (m v logNorm : K) (id : Nat)
   { fam := fam, p1 := p.1, p2 := p.2, logNorm := logNorm, id := id, lower := lower, upper := upper }
 
 end
+
+/-! ## the constructor of a transformed message -/
+
+/-- `TransformedMessage(base_message, *transforms, id_=…, lower_limit=…, upper_limit=…)`: a base message that is
+itself transformed is flattened - its transforms come first, the new ones are applied on top -/
+def M.wrap {K : Type} (m : M K) (trs : List (Tr K)) (id : Option Nat) (lower upper : K) : M K :=
+  .transformed { base := m.base, trs := m.trs ++ trs, id := id, lower := lower, upper := upper }
 
 /-! ## the `Float` instance the driver runs -/
 
